@@ -206,6 +206,10 @@ func c18Gen(t *rapid.T) C18Case {
 		`{} | keep tier, env`,
 		`{} | keep tier`,
 		`{} | drop msg, container, container_id, container_name`,
+		// renames that depend on each other: a chain, a swap (applied in the order written, on every run)
+		`{} | label_format container=tier, tier=env`,
+		`{} | label_format tier=env, env=tier | drop msg`,
+		`{} | label_format a=tier, b=a, c=b | keep a, b, c, container`,
 		`count_over_time({}[2s])`,
 		`count_over_time({} | keep tier, env [2s])`,
 		`sum by (tier, env) (count_over_time({}[5s]))`,
